@@ -162,7 +162,8 @@ class CliSim(object):
         if plan:
             for f in plan:
                 if f["type"] == "open_error":
-                    self.ff.arm_open_error(f["file"], f["nth"], f["errno"], seam=f.get("seam", "open"))
+                    self.ff.arm_open_error(f["file"], f["nth"], f["errno"], seam=f.get("seam", "open"),
+                                           persistent=bool(f.get("persistent")))
                 elif f["type"] == "read_error":
                     self.ff.arm_read_error(f["file"], f["after"])
         self.ff.swap_hook = hook
@@ -342,8 +343,22 @@ class CliSim(object):
         if fault["type"] in ("open_error", "read_error"):
             o = self.run_cmd(argv, plan=[fault])
             if o["fired"]:
-                expect_reject = True
-                self.stats["fired:" + fault["type"]] += 0   # counted by the seam itself
+                if fault.get("persistent"):
+                    # the file cannot be opened at all: it must be rejected whatever the order of opens
+                    expect_reject = True
+                else:
+                    # a transient error (one open, or a read error part-way) may legitimately be absorbed by a
+                    # probe or a second read; what it must never do is change the output silently
+                    self.stats["probe:transient_io_fired"] += 1
+                    if o["ok"] and not self.same_output(o, base):
+                        self.emit({"i": step, "kind": "fault", "fault": fault, "o": self.odig(o)})
+                        self.violate(step, "fault_changed_output", {"argv": argv, "fault": fault, "out": self.brief(o),
+                                                                    "base": self.brief(base)})
+                        return
+                    if not o["ok"]:
+                        self.stats["transient_io_rejected"] += 1
+                    else:
+                        self.stats["transient_io_absorbed"] += 1
         elif fault["type"] == "swap":
             with open(name, "rb") as f:
                 orig = f.read()
@@ -385,14 +400,19 @@ class CliSim(object):
             new = damaged_bytes(orig, fault)
             if new == b"__nc_nodims__":
                 # a NetCDF file without one of the required dimensions (renamed), variables kept
-                import netCDF4
-                ds = self.ff._orig_ds(name, "a")
+                # (done on a private copy that then replaces the path: the system under test may still
+                # hold the original open)
+                tmp = name + ".dmg"
+                with open(tmp, "wb") as f:
+                    f.write(orig)
+                ds = self.ff._orig_ds(tmp, "a")
                 try:
                     ds.renameDimension("time" if int(fault["frac"] * 2) == 0 else "leadtime", "dim_renamed")
                 finally:
                     ds.close()
-                with open(name, "rb") as f:
+                with open(tmp, "rb") as f:
                     new = f.read()
+                os.replace(tmp, name)
             else:
                 os.remove(name)
                 if new is None:
